@@ -203,12 +203,13 @@ def _ip_tcp(payload, rng, sport, dport, seq):
     return ip + tcp + payload
 
 
-def write_pcapng(messages, rng, noise=True):
+def write_pcapng(messages, rng, noise=True, ether=None, mixed=None):
     """pcapng capture of TPM traffic: one TCP packet per message, raw-IP or Ethernet (loopback MACs)
     framing, runt packets (< 10 payload bytes, e.g. mssim platform commands) interleaved, optional
     4-byte mssim trailer after responses, option blocks."""
-    ether = noise and rng.random() < 0.5
-    mixed = noise and rng.random() < 0.3     # two interfaces: loopback Ethernet and raw IP (tpm2-tss pcap TCTI)
+    e_, m_ = noise and rng.random() < 0.5, noise and rng.random() < 0.3
+    ether = e_ if ether is None else ether
+    mixed = m_ if mixed is None else mixed     # two interfaces: loopback Ethernet and raw IP (tpm2-tss pcap TCTI)
     trailer = noise and rng.random() < 0.4
     opts = b""
     if noise and rng.random() < 0.5:
